@@ -10,7 +10,7 @@ RULE = ("Generated trees/DAGs x points, plus boundary injection (a constrained n
         "shifted so that its argument is exactly on / 2^-k inside / 2^-k outside its boundary at the point) and "
         "masking contexts (an undefined sub-term under a zero factor, zero numerator, base one, exponent of base-1 "
         "exponential, self-cancelling sum, n=1 power/root, variable-free zero-valued trees, nested n-ary nodes). "
-        "Oracle = reference interpreter's exact/with-margin domain decision.  Non-trivial = decided case whose "
+        "The same object is also evaluated at 2-4 points in a row (defined and undefined mixed).  Oracle = reference interpreter's exact/with-margin domain decision.  Non-trivial = decided case whose "
         "offending or nearest (distance <= 2^-10) constrained sub-expression lies at depth >= 2 or in a masking "
         "context; distinct by SHA-1 of (canonical model, point).")
 ASSUMPTIONS = [
@@ -75,6 +75,49 @@ def check(stats, m, env, info=None, sub="domain"):
                               describe(m, env, reference=r.st, library=repr(out), **{k: str(v) for k, v in info.items()}))
 
 
+def check_sequence(stats, m, envs, sub="sequence"):
+    """One expression object evaluated at several points in a row: DomainError exactly at the undefined ones,
+    whatever happened before (a failed evaluation must not poison or mask the next one)."""
+    stats.case()
+    e = build(m)
+    trail = []
+    kinds = set()
+    for k, env in enumerate(envs):
+        r, ctx = RE.evaluate(m, env)
+        out = lib.call(lambda: e.at(lib.Point(**env)))
+        trail.append(f"{M.point_text(env)} -> {out!r}")
+        if r.st not in (RE.DEFINED, RE.UNDEF) or out.kind == lib.OVF:
+            continue
+        kinds.add(r.st)
+        case = make_case(sub, m, None, points=[M.point_to_json(x) for x in envs[:k + 1]])
+        where = f"{M.text(m)[:250]}: evaluations in a row on one object: {'; '.join(trail)}"
+        if r.st == RE.UNDEF and out.kind != lib.DOM:
+            raise violation(ID, sub, f"sequence-undefined-but:{out.kind}", case, f"{where}: the last point is outside the domain ({ctx.first_bad[1]})")
+        if r.st == RE.DEFINED and out.kind != lib.NUM:
+            raise violation(ID, sub, f"sequence-defined-but:{out.kind}", case, f"{where}: the last point is inside the domain (value {r.v})")
+        stats.count("sequence-evaluations")
+    if len(kinds) == 2:
+        stats.count("sequence-mixed")
+        stats.nontrivial_case(M.digest(M.canon(m), [sorted(x.items()) for x in envs]), {"expr": M.text(m)[:300], "sequence": trail[:4]})
+
+
+def make_sequence(stats):
+    @given(st.data())
+    def test(data):
+        names = data.draw(S.name_lists(1, 3))
+        k = data.draw(st.integers(0, 2))
+        if k == 0:
+            m = data.draw(S.expressions(names, depth=3))
+            envs = [data.draw(S.points(names)) for _ in range(data.draw(st.integers(2, 4)))]
+        else:
+            # the same constrained node on / off its boundary at consecutive points
+            m, env, _info = data.draw(BD.injected(names, depth=2))
+            envs = [env] + [data.draw(S.points(names)) for _ in range(data.draw(st.integers(1, 3)))]
+            envs = data.draw(st.permutations(envs))
+        check_sequence(stats, m, list(envs))
+    return test
+
+
 def make_general(stats):
     @given(st.data())
     def test(data):
@@ -105,12 +148,16 @@ def make_masked(stats):
 
 def parts(tier):
     n = 20000 if tier == "quick" else 400000
-    return [hyp_part("general", make_general, int(n * 0.3)),
-            hyp_part("boundary", make_boundary, int(n * 0.35)),
-            hyp_part("masked", make_masked, int(n * 0.35))]
+    return [hyp_part("general", make_general, int(n * 0.25)),
+            hyp_part("boundary", make_boundary, int(n * 0.3)),
+            hyp_part("masked", make_masked, int(n * 0.3)),
+            hyp_part("sequence", make_sequence, int(n * 0.15))]
 
 
 def replay(case):
+    if case.get("sub") == "sequence":
+        check_sequence(Stats(), case_model(case), [M.point_from_json(p) for p in case["points"]])
+        return
     check(Stats(), case_model(case), case_point(case), case.get("info"), sub=case.get("sub", "domain"))
 
 
